@@ -71,6 +71,7 @@ def run(ctx):
     # byte before shifting it into place, or 0.1L comes back as a NaN (rule shared with C13 D4)
     import importlib as _il18
     _il18.import_module("rules.c13").d4_codec(db, rep, "D10-CONST-CODEC")
+    d11_avx_constant_full_width(db, rep)
     # ---- D2 ------------------------------------------------------------------
     rows = {r["name"]: r for r in init_rows(db.tu("orcopcodes-sys").global_("opcodes")) if isinstance(r, dict) and r.get("name")}
     FLOAT = db.macro_int("ORC_STATIC_OPCODE_FLOAT_SRC") | db.macro_int("ORC_STATIC_OPCODE_FLOAT_DEST")
@@ -405,3 +406,48 @@ def has_float_tests_both(db, rep, rule):
               "whose float opcodes only consume (or only produce) floats runs its JIT code without FTZ|DAZ and treats denormals differently from "
               "emulation, backup code and the DISABLE_ORC build" % (got, FLOAT))
 
+
+
+def d11_avx_constant_full_width(db, rep, rule="D11-CONST-FULL-WIDTH"):
+    """A constant is the same value in every lane of the 256-bit register that holds it.  A VEX.128-encoded instruction zeroes
+    bits 255..128 of its destination (Intel SDM vol. 1 14.1.1), so in the AVX constant loaders the LAST instruction that writes the
+    constant's register on any path must be a 256-bit form or the broadcast: an `orc_avx_sse_emit_*` (VEX.128) write that can
+    reach the end of the function without a full-width write behind it leaves the upper two (double) or four (float) lanes 0 -
+    `muld d, s, -2.0L` then multiplies half of every four elements by zero."""
+    from flow import paths_avoiding
+    v128 = db.enum("ORC_X86_AVX_VEX128_PREFIX")
+    tu = db.tu("orcprogram-avx")
+    n = 0
+    for f in tu.main_functions():
+        if "load_constant" not in f.name:
+            continue
+        regs = [p_["name"] for p_ in f.params if p_["name"] in ("reg", "dest", "d")]
+        if not regs:
+            continue
+        reg = regs[0]
+
+        def writes_reg(e):
+            if e.k != "CallExpr" or not e.name or not e.args():
+                return None
+            a = e.args()
+            if e.name.startswith("orc_vex_emit_cpuinsn"):
+                d = strip_casts(a[-2])
+                if d is not None and d.k == "DeclRefExpr" and d.name == reg:
+                    return "128" if strip_casts(a[-1]).v == v128 else "256"
+                return None
+            if e.name == "orc_avx_emit_broadcast" and len(a) > 2 and strip_casts(a[2]) is not None and strip_casts(a[2]).k == "DeclRefExpr" and strip_casts(a[2]).name == reg:
+                return "256"
+            return None
+        for c in {c.id: c for c in f.calls()}.values():
+            if writes_reg(c) != "128":
+                continue
+            n += 1
+            rep.saw(f)
+            wit = paths_avoiding(f, c, lambda e: writes_reg(e) == "256")
+            rep.check(wit is None, rule, where(f), "%s@%s" % (f.name, c.line), "a VEX.128 write of the constant's register is followed by a full-width write",
+                      "%s writes `%s` with a VEX.128-encoded instruction (line %s) and can return without a 256-bit instruction or a broadcast behind it: "
+                      "the upper 128 bits of the register are zero, so the constant is 0 in the upper lanes of every 256-bit iteration" % (f.name, reg, c.line),
+                      line=c.line)
+    if n < 3:
+        raise AnalysisBroken("only %d VEX.128 writes found in the AVX constant loaders" % n)
+    return n
